@@ -129,6 +129,9 @@ func c12(tier string) []*explore.Scenario {
 		out = append(out, c12SeqT(si, 1, maxLen, 1, true))
 	}
 	out = append(out, c12Interference(1), c12MethodNames(), c12MethodGrammar())
+	for _, mode := range []string{"repeat", "cycle", "cycle-fresh"} {
+		out = append(out, c12Long(mode))
+	}
 	for _, end := range []string{"stop", "write-fails", "read-fails"} {
 		out = append(out, c12ResetsUnread("C12", end, 2))
 	}
@@ -720,6 +723,107 @@ func c12ResetsUnread(prop, end string, bound int) *explore.Scenario {
 			}
 			if ts := vsched.Threads(); len(ts) > 0 && d.ServeDone && s2 {
 				vsched.Fail(fam+"|goroutine-leak", "resets nobody read, then the connection ended (%s): after both Serve calls returned, goroutines remain: %s", end, threadList())
+			}
+		},
+	}
+}
+
+// c12Long: long conversations (hundreds of envelopes on one connection) under the default
+// schedule. mode "repeat": every shape 12 times in a row on fresh ids; "cycle": the whole
+// alphabet three times over on ids 1 and 2; "cycle-fresh": the same on fresh ids. After every
+// hostile envelope a valid unary request on a fresh id must be served and Serve must still run;
+// at the end the usual probes and close.
+func c12Long(mode string) *explore.Scenario {
+	fam := "C12/hostile"
+	return &explore.Scenario{
+		Name: "C12/long/" + mode, Family: fam, Prop: "C12", Bound: 0,
+		Run: func() {
+			w := env.NewWorld()
+			d := env.NewDirect(w, env.DirectOpts{Pipe: env.PipeOpts{Cap: 256}, NoClient: true})
+			vsched.GoNamed("peer-reader", func() {
+				for {
+					if _, err := d.Pipe.A.Read(context.Background()); err != nil {
+						return
+					}
+				}
+			})
+			vsched.Settle()
+			type step struct {
+				si int
+				id uint64
+			}
+			var steps []step
+			next := uint64(1000)
+			switch mode {
+			case "repeat":
+				for si := range c12Shapes {
+					for k := 0; k < 12; k++ {
+						next++
+						steps = append(steps, step{si, next})
+					}
+				}
+			case "cycle":
+				for pass := 0; pass < 3; pass++ {
+					for si := range c12Shapes {
+						steps = append(steps, step{si, uint64(1 + (si+pass)%2)})
+					}
+				}
+			case "cycle-fresh":
+				for pass := 0; pass < 3; pass++ {
+					for si := range c12Shapes {
+						next++
+						steps = append(steps, step{si, next})
+					}
+				}
+			}
+			probeID := uint64(500000)
+			for n, st := range steps {
+				sh := c12Shapes[st.si]
+				tag := fmt.Sprintf("p%d", n)
+				if sh.unaryMust || sh.unaryMay {
+					w.Rec(tag, "Unary")
+				}
+				if sh.opens || sh.opensMay {
+					w.Rec(tag, "Bidi")
+				}
+				if err := d.Pipe.A.Inject(sh.build(st.id, tag)); err != nil {
+					vsched.Fail(fam+"|harness", "inject failed: %v", err)
+					return
+				}
+				vsched.Quiesce()
+				probeID++
+				ptag := fmt.Sprintf("q%d", n)
+				pr := w.Rec(ptag, "Unary")
+				d.Pipe.A.Inject(env.ReqUnary(probeID, ptag, "x"))
+				vsched.Quiesce()
+				if d.ServeDone {
+					vsched.Fail(fam+"|serve-ended", "long conversation (%s): Serve returned (%v) after envelope %d (%s@%d)", mode, d.ServeErr, n, sh.name, st.id)
+					return
+				}
+				if pr.HStarts != 1 || !hasUnaryReply(d, probeID, "R:"+ptag+"|x") {
+					vsched.Fail(fam+"|probe-unary", "long conversation (%s): after envelope %d (%s@%d) a valid unary request was not served (handler runs %d)", mode, n, sh.name, st.id, pr.HStarts)
+					return
+				}
+			}
+			for _, s := range w.Stray {
+				if s != "unary:" {
+					vsched.Fail(fam+"|handler-for-malformed", "long conversation (%s): a handler ran for a request that is not well-formed/addressed to this server: %q", mode, s)
+				}
+			}
+			ps := w.Rec("probe-s", "Bidi")
+			d.Pipe.A.Inject(env.ReqOpen(900001, env.MBidi, "probe-s"))
+			d.Pipe.A.Inject(env.ReqBody(900001, env.MBidi, "ping"))
+			d.Pipe.A.Inject(env.ReqTrailer(900001, env.MBidi))
+			vsched.Quiesce()
+			vsched.Obs("%s: %d envelopes, probe-s recv=%v ret=%v", mode, len(steps), ps.HRecv, ps.HReturned)
+			if ps.HStarts != 1 || !ps.HReturned || !eqStrs(ps.HRecv, []string{"ping"}) || !hasStreamEcho(d, 900001) {
+				vsched.Fail(fam+"|probe-stream", "long conversation (%s): a valid bidi stream was not served afterwards: %s", mode, ps.Summary())
+			}
+			d.Pipe.A.Break()
+			d.Pipe.B.Break()
+			vsched.Quiesce()
+			if !d.ServeDone {
+				vsched.Fail(fam+"|serve-hang", "long conversation (%s): Serve did not return when the transport closed; threads: %s", mode, threadList())
 			}
 		},
 	}
